@@ -223,6 +223,7 @@ proof fn lemma_searches_ok<V>(n: NfaBuilder<u8, V>, st: Seq<State>, idmap: Seq<u
 }
 
 // what build_with_values promises about the automaton it returns (as fields, so that the exec function's own obligation is small)
+#[verifier::opaque]
 spec fn bwv_post<P: AsRef<[u8]>, V>(st: Seq<State>, outs: Seq<Output<V>>, num_states: u32, items: Seq<(P, V)>, kind: MatchKind) -> bool {
     &&& pats_valid(items)
     &&& bw_wf(st, lm_of(kind)) && outs_ok(st, outs)
@@ -242,6 +243,7 @@ proof fn lemma_bwv_post<P: AsRef<[u8]>, V>(nfa: NfaBuilder<u8, V>, st: Seq<State
         nfa.states@.len() == num_states + 1,
     ensures bwv_post(st, nfa.outputs@, num_states, items, kind),
 {
+    reveal(bwv_post);
     let idmap = choose|idmap: Seq<u32>| bw_built(st, nfa, idmap);
     lemma_encodes_gives_wf(nfa, st, idmap, lm_of(kind));
     lemma_built_outs_ok(st, nfa, idmap);
